@@ -77,7 +77,13 @@ TEXT = {
               'self_include_fails_at_100 for the standard engine). Closed form (include_denotation, include_denotation_run, include_denotation_mk): when the argument '
               'evaluates to a string, the joined path has a source on disk or (only if no such file exists) in the cache, the '
               'source compiles and renders normally with a copy of the current variables to out, the include node is exactly '
-              'one write of out to the includer\'s writer and leaves the variables as they were. From source bytes (Proofs.C14Source): the source '
+              'one VERBATIM write of out to the includer\'s writer (TagNode.render hands every tag verbatimWriter{w} since the repair '
+              'fixes/verbatim-output-not-trimmed) and leaves the variables as they were: on a writer that does not fail the text pending '
+              'before the tag and then the bytes of out go out unchanged whatever trim flag a preceding hyphen left, and nothing of out stays '
+              'pending for a following left hyphen (include_denotation_run) - "inserts exactly the output that rendering that file\'s content '
+              'directly would give" also next to a neighbour\'s hyphen, where the unrepaired code stripped white space at the edge of the '
+              'included output (`{{ x -}}{% include "f" %}`; found when the repair of object nodes made the incl stream\'s inlining oracle, '
+              'which prints the file\'s output through an object, exact). From source bytes (Proofs.C14Source): the source '
               '{% include "name" %} (a string literal in either quote whose name does not contain that quote byte, any good '
               'delimiters, the items Clean for them), on a file system where dir(path)/name holds a source that run as a '
               'template of its own (includer\'s variables, the tag\'s line, fuel one less) returns out, makes run return exactly out '
